@@ -72,6 +72,7 @@ fn drive(opts: &Opts, level: &str, label: &str, workloads: u64, jobs: usize, rul
         // another engine's leg of the same property (written by `iosim --partial`)
         let v = read_json(std::path::Path::new(path));
         rep.evaluations += v["evaluations"].as_u64().unwrap_or(0);
+        rep.extra_wall_s = v["wall_s"].as_f64().unwrap_or(0.0);
         for d in v["distinct"].as_array().cloned().unwrap_or_default() {
             rep.distinct.insert(d.as_u64().unwrap_or(0));
         }
